@@ -885,28 +885,41 @@ func (c *Ctx) healthWriters() {
 		}
 	}
 	c.Floor("ejection-window", nCalls, 3, "MarkBackendUnhealthy call sites")
-	if ch := p.Fn("internal/loadbalancer", "", "createHealthChecker"); ch == nil {
-		c.Missing("ejection-window", "loadbalancer.createHealthChecker")
-	} else {
+	// where the passive settings are taken from the configuration — createHealthChecker, or whichever
+	// function initialises the health checker
+	{
 		want := map[string]string{
 			"loadbalancer.healthChecker.passiveTimeout":   "(fld:config.PassiveHealthCheckConfig.UnhealthyTimeout * k:1000000000)",
 			"loadbalancer.healthChecker.passiveThreshold": "fld:config.PassiveHealthCheckConfig.UnhealthyThreshold",
 			"loadbalancer.healthChecker.passiveEnabled":   "fld:config.PassiveHealthCheckConfig.Enabled",
 		}
-		got := map[string]string{}
-		instrsOf(ch, func(in ssa.Instruction) {
-			if k, st := storeKey(in); st != nil {
-				got[k] = p.Desc(st.Val, nil)
+		got := map[string][]string{}
+		pos := map[string]string{}
+		for _, fn := range p.Funcs {
+			if !p.InScope(fn) {
+				continue
 			}
-		})
+			instrsOf(fn, func(in ssa.Instruction) {
+				if k, st := storeKey(in); st != nil && want[k] != "" {
+					got[k] = append(got[k], p.Desc(st.Val, nil))
+					pos[k] = p.InstrPos(st)
+				}
+			})
+		}
 		var ks []string
 		for k := range want {
 			ks = append(ks, k)
 		}
 		sort.Strings(ks)
 		for _, k := range ks {
-			c.Check(got[k] == want[k], "ejection-window", "loadbalancer.createHealthChecker/"+strings.TrimPrefix(k, "loadbalancer.healthChecker."), p.Pos(ch.Pos()),
-				"derived from the configuration field", "not derived from the documented configuration field: "+got[k]+" (want "+want[k]+")")
+			ok := len(got[k]) > 0
+			for _, g := range got[k] {
+				if g != want[k] {
+					ok = false
+				}
+			}
+			c.Check(ok, "ejection-window", "loadbalancer.createHealthChecker/"+strings.TrimPrefix(k, "loadbalancer.healthChecker."), pos[k],
+				"derived from the configuration field", fmt.Sprintf("not derived from the documented configuration field: %v (want %s)", got[k], want[k]))
 		}
 	}
 }
